@@ -32,6 +32,7 @@ def check(ctx, tier):
     obs += ctx.attempt(scanner.nt_token_table, ctx, "D-f", default=[])
     obs += ctx.attempt(lambda c, cl: plumb.no_cross_option_flow(c, cl)[0], ctx, "D-g", default=[])
     obs += ctx.attempt(lambda c, cl: mergetable.invariants(c, cl, which=('order-free',))[0], ctx, "D-h", default=[])
+    obs += ctx.attempt(scanner.nt_document_table, ctx, "D-i", default=[])
     exceptions.apply(obs)
     floors = [Floor("accumulator increments (+= 1)", counts.get("inc", 0), 9), Floor("accumulation loops", n_loops, 8),
               Floor("memo sites", n_memo, 3), Floor("set constructions", n_sets, 10), Floor("node-identifier uses", n_ids, 15)]
